@@ -9,7 +9,8 @@ Helpers: `pc:addr:val` PutContract · `sd:addr:h` SetContractDestroyed · `ud:ad
 Transactions: `K:addr:val:vm:prog` defines a contract (`vm` = `n`|`w`, `prog` = `-` or calls joined by `,`:
 `P.k.v` put, `D.k` delete, `X` destroy, `G.addr` migrate to, `C.addr` create, `S.addr` create + GetScript, `A.addr` call) ·
 `dep:h:addr` deploy transaction · `inv:h:addr` invoke transaction calling the contract.
-Output: observations, ` | `, final views. Printed for both variants (`asShipped ## sound`) when they differ. -/
+Output: observations, ` | `, final views; the distinct outputs of the four combinations (storage writes unchecked as shipped /
+checked) × (typed-nil contract of `Contract.Create` as shipped / repaired), separated by ` ## `. -/
 namespace OntVerif.Driver.C44
 open OntVerif.Util OntVerif.Model.KV OntVerif.Model.Migrate
 
@@ -71,13 +72,13 @@ def sysRes (v : Variant) (track h : Nat) (c : Cache) (s : Sys) : Res :=
 /-- run the program of `self`; a destroyed wasm contract terminates, a failing call fails the transaction.
 The fuel is the total number of program steps (programs are finite and calls are acyclic: a contract can only name
 contracts defined before it). -/
-def execProg (v : Variant) (track h : Nat) (t : Table) : Nat → Cache → Contract → List POp → Res
+def execProg (v : Variant) (guard : Bool) (track h : Nat) (t : Table) : Nat → Cache → Contract → List POp → Res
   | _, c, _, [] => .ok c
   | 0, _, _, _ => .fail
   | fuel + 1, c, self, op :: rest =>
     let cont (r : Res) : Res :=
       match r with
-      | .ok c' => execProg v track h t fuel c' self rest
+      | .ok c' => execProg v guard track h t fuel c' self rest
       | r => r
     match op with
     | .put k val => cont (sysRes v track h c (if self.wasm then .wasmWrite self.addr k val else .neoPut self.addr k val))
@@ -106,8 +107,9 @@ def execProg (v : Variant) (track h : Nat) (t : Table) : Nat → Cache → Contr
         else
           match (Sys.neoCreate a n.val).run v track h c with
           | .ok c' => cont (.ok c')
-          -- Ontology.Contract.GetScript on the typed-nil *DeployCode: nil dereference as shipped, an error when guarded
-          | .nilInterop _ => if v = .asShipped then .panic else .fail
+          -- Ontology.Contract.GetScript on the typed-nil *DeployCode: nil dereference as shipped; with
+          -- fixes/C44-create-destroyed-nil-interop.patch an empty contract is pushed and the script goes on
+          | .nilInterop c' => if guard then cont (.ok c') else .panic
           | .fail => .fail
     | .call a =>
       match t.find a with
@@ -116,18 +118,18 @@ def execProg (v : Variant) (track h : Nat) (t : Table) : Nat → Cache → Contr
         if n.wasm != self.wasm then .fail
         else
           match sysRes v track h c (.appCall a) with
-          | .ok c' => cont (execProg v track h t fuel c' n n.prog)
+          | .ok c' => cont (execProg v guard track h t fuel c' n n.prog)
           | r => r
 
 /-- invoke transaction -/
-def invokeTx (v : Variant) (track h : Nat) (t : Table) (c : Cache) (a : Bytes) : Cache × String :=
+def invokeTx (v : Variant) (guard : Bool) (track h : Nat) (t : Table) (c : Cache) (a : Bytes) : Cache × String :=
   let c0 := c.reset
   match t.find a with
   | none => (c0, "inv=err")
   | some n =>
     match sysRes v track h c0 (.appCall a) with
     | .ok c1 =>
-      match execProg v track h t 100000 c1 n n.prog with
+      match execProg v guard track h t 100000 c1 n n.prog with
       | .ok c' => (c'.commit, "inv=ok")
       | .fail => (c0, "inv=err")
       | .panic => (c0, "inv=panic")
@@ -142,7 +144,7 @@ def showCState : CState → String
   | .destroyed => "destroyed"
   | .present v => s!"present:{hexW v}"
 
-def stepOp (v : Variant) (track : Nat) (st : St) (s : String) : Option (St × Option String) :=
+def stepOp (v : Variant) (guard : Bool) (track : Nat) (st : St) (s : String) : Option (St × Option String) :=
   let c := st.c
   let upd (c' : Cache) : Option (St × Option String) := some ({ st with c := c' }, none)
   match s.splitOn ":" with
@@ -194,20 +196,21 @@ def stepOp (v : Variant) (track : Nat) (st : St) (s : String) : Option (St × Op
   | ["inv", h, a] => do
     let a ← unhexAddr a
     let h ← h.toNat?
-    let (c', out) := invokeTx v track h st.t c a
+    let _ ← st.t.find a
+    let (c', out) := invokeTx v guard track h st.t c a
     some ({ st with c := c' }, some out)
   | _ => none
 
-def runOps (v : Variant) (track : Nat) (st : St) : List String → List String → Option (St × List String)
+def runOps (v : Variant) (guard : Bool) (track : Nat) (st : St) : List String → List String → Option (St × List String)
   | [], acc => some (st, acc.reverse)
   | o :: r, acc =>
-    match stepOp v track st o with
+    match stepOp v guard track st o with
     | none => none
-    | some (st', none) => runOps v track st' r acc
-    | some (st', some out) => runOps v track st' r (out :: acc)
+    | some (st', none) => runOps v guard track st' r acc
+    | some (st', some out) => runOps v guard track st' r (out :: acc)
 
-def runLine (v : Variant) (net : Nat) (ops : String) : String :=
-  match runOps v (trackHeightOf net) ⟨⟨[], ⟨[], []⟩⟩, []⟩ (ops.splitOn ";") [] with
+def runLine (v : Variant) (guard : Bool) (net : Nat) (ops : String) : String :=
+  match runOps v guard (trackHeightOf net) ⟨⟨[], ⟨[], []⟩⟩, []⟩ (ops.splitOn ";") [] with
   | none => "bad-op"
   | some (st, outs) =>
     let c := st.c
@@ -222,9 +225,10 @@ def handle (line : String) : String :=
     | none => "bad-op"
     | some n =>
       if n < 1 || n > 3 then "bad-op" else
-      let a := runLine .asShipped n ops
-      let b := runLine .sound n ops
-      if a == b then a else s!"{a} ## {b}"
+      -- the two recorded defects are independent: unchecked storage writes (`Variant`) and the typed-nil contract handed
+      -- out by `Contract.Create` on a destroyed address (`guard` = repaired by fixes/C44-create-destroyed-nil-interop.patch)
+      let outs := [runLine .asShipped false n ops, runLine .asShipped true n ops, runLine .sound false n ops, runLine .sound true n ops]
+      String.intercalate " ## " outs.eraseDups
   | _ => "bad-op"
 
 end OntVerif.Driver.C44
